@@ -362,7 +362,8 @@ Proof.
     { clear - Hl Hpos Hs. revert ss Hl Hs. induction Hpos as [|e es He _ IH]; intros [|s ss] Hl Hs; cbn [length combine] in *; try discriminate; [constructor|].
       injection Hl as Hl. inversion Hs; subst. constructor; [cbn [fst snd]; lia|apply IH; auto]. }
     repeat split; auto.
-    + apply orderable_chainable; auto.
+    + apply Hord. clear - Hpos. induction Hpos as [|e es He _ IH]; cbn [existsb]; [reflexivity|].
+      rewrite IH, orb_false_r. apply Z.eqb_neq. lia.
     + apply inbe_inb; auto.
   - destruct Hv as [Ha Hp].
     assert (Hle : ptw_le es (lpad_exts es ps)) by (eapply ptw_le_lpad; eauto; intros H2; apply Hp; exact H2).
@@ -377,6 +378,18 @@ Proof.
     + eexists. split; [apply Permutation_refl|exact Hc].
     + apply right_allpos, Hle.
     + apply inbe_inb; auto. rewrite right_strides_length. apply rpad_exts_length.
+Qed.
+
+(* the standard's precondition for layout_stride (all strides positive, and some permutation p with
+   s[p_i] >= s[p_{i-1}] * e[p_{i-1}]) implies the chain condition `valid` asks for *)
+Lemma std_precondition_chainable es ss : length ss = length es ->
+  Forall (fun e => 0 <= e) es -> Forall (fun s => 0 < s) ss -> orderable (combine es ss) ->
+  existsb (Z.eqb 0) es = false -> chainable (combine es ss).
+Proof.
+  intros Hl He Hs Ho Hz. apply orderable_chainable; auto.
+  clear Ho. revert ss Hl Hs Hz. induction He as [|e es He0 _ IH]; intros [|s ss] Hl Hs Hz; cbn [length combine existsb] in *; try discriminate; [constructor|].
+  apply orb_false_iff in Hz as [Hz1 Hz2]. apply Z.eqb_neq in Hz1. injection Hl as Hl. inversion Hs; subst.
+  constructor; [cbn [fst snd]; lia|apply IH; auto].
 Qed.
 
 (* ------------------------------------------------------------------------------------------------ *)
